@@ -54,7 +54,7 @@ def gen_values(rng, n, nan_p=0.1, style=None):
     return out
 
 
-def gen_table(rng, max_n=40, nsids=None, axes_p=(0.65, 0.5), index_kinds=None, n=None):
+def gen_table(rng, max_n=40, nsids=None, axes_p=(0.65, 0.5), index_kinds=None, n=None, no_time_p=0.0):
     n = gen_n(rng, max_n) if n is None else n
     k = nsids or rng.weighted([(1, 4), (2, 4), (3, 2)])
     tbl = {
@@ -90,6 +90,10 @@ def gen_table(rng, max_n=40, nsids=None, axes_p=(0.65, 0.5), index_kinds=None, n
         tbl["index"]["perm"] = perm
     if kind == "offset":
         tbl["index"]["start"] = rng.pick((1, 7, 100))
+    if no_time_p and rng.chance(no_time_p):
+        tbl["no_time"] = True
+        if tbl["index"]["kind"] == "datetime":
+            tbl["index"] = {"kind": "range"}
     if rng.chance(0.25):
         # non-default axis column / variable names, handed to the stream constructors
         tbl["names"] = {k: v for k, v in (("time", "t_utc"), ("z", "depth"), ("lat", "latitude"), ("lon", "longitude")) if rng.chance(0.6)}
@@ -301,7 +305,7 @@ TEST_WEIGHTS = [4, 5, 4, 4, 2, 3, 3, 1, 3, 1, 3, 5, 3, 2]
 
 def table_axes(tbl):
     have = set()
-    if tbl.get("times") is not None:
+    if tbl.get("times") is not None and not tbl.get("no_time"):
         have.add("time")
     if tbl.get("z") is not None:
         have.add("z")
@@ -371,6 +375,11 @@ def gen_fault_entry(rng, kind, sid, tbl, exclude=()):
         return {"sid": sid, "module": module, "test": test, "params": params, "role": "F3"}
     if kind == "F4":
         opts = []
+        if "time" not in have:
+            opts += [
+                ("qartod", "rate_of_change_test", {"threshold": 1}),
+                ("qartod", "flat_line_test", {"suspect_threshold": 60, "fail_threshold": 120, "tolerance": 1}),
+            ]
         if "z" not in have:
             opts += [
                 ("qartod", "density_inversion_test", {"suspect_threshold": 0.5}),
@@ -418,6 +427,8 @@ def gen_config(rng, tbl, max_ctx=4, max_tests=3, window_layout=None, fault_kinds
     sids = list(tbl["cols"])
     k = rng.randint(1, max_ctx)
     wins = gen_windows(rng, tbl["times"], k, window_layout)
+    if tbl.get("no_time"):
+        wins = [None]  # no time axis: there is no t to compare a window with
     contexts = []
     for w in wins:
         entries = []
@@ -448,7 +459,7 @@ def gen_config(rng, tbl, max_ctx=4, max_tests=3, window_layout=None, fault_kinds
                 continue
             c["entries"].insert(rng.randint(0, len(c["entries"])), e)
             nf += 1
-    if len(contexts) >= 2 and rng.chance(0.08):
+    if len(contexts) >= 2 and rng.chance(0.08) and not tbl.get("no_time"):
         # the same window again, later in the list, with other tests: Config treats both as one Context
         src = rng.pick(contexts[:-1])
         dup = {"window": json.loads(json.dumps(src["window"])), "entries": []}
@@ -462,7 +473,7 @@ def gen_config(rng, tbl, max_ctx=4, max_tests=3, window_layout=None, fault_kinds
                 dup["entries"].append(e)
         if dup["entries"]:
             contexts.append(dup)
-    if "F5" in fault_kinds and rng.chance(0.35):
+    if "F5" in fault_kinds and rng.chance(0.35) and not tbl.get("no_time"):
         # a "dead" context: every entry names a stream the source does not have
         taken = {None if c["window"] is None else (c["window"].get("starting"), c["window"].get("ending")) for c in contexts}
         for w in _mixed(rng, boundary_points(rng, tbl["times"]), 4):
